@@ -260,6 +260,72 @@ func c10literals(quick bool) []c10lit {
 	for m := 34000000; m <= hi; m++ {
 		lits = append(lits, c10lit{2, fmt.Sprintf("%d.%06d", m/1000000, m%1000000), "decimal-inexact", "normal"})
 	}
+	// CASE of the hexadecimal digits: LLVM accepts a-f as well as A-F. Every hexadecimal literal
+	// generated so far that contains a letter digit is repeated in lower case and in alternating
+	// case (the form prefix 0x / 0xK / 0xL / 0xM / 0xH stays as it is).
+	{
+		n := len(lits)
+		for i := 0; i < n; i++ {
+			l := lits[i]
+			if l.spelling != "native-hex" && l.spelling != "double-hex" {
+				continue
+			}
+			pl := 2
+			if len(l.text) > 2 && l.text[2] >= 'H' && l.text[2] <= 'M' {
+				pl = 3
+			}
+			digits := l.text[pl:]
+			if !strings.ContainsAny(digits, "ABCDEF") {
+				continue
+			}
+			// half has 2^16 literals: lower case for all of them, alternating case for every 16th.
+			lits = append(lits, c10lit{l.kind, l.text[:pl] + strings.ToLower(digits), l.spelling + "-lowercase", l.class})
+			if l.kind == 0 && i%16 != 0 {
+				continue
+			}
+			alt := []byte(digits)
+			for j := range alt {
+				if j%2 == 1 && alt[j] >= 'A' && alt[j] <= 'F' {
+					alt[j] += 'a' - 'A'
+				}
+			}
+			lits = append(lits, c10lit{l.kind, l.text[:pl] + string(alt), l.spelling + "-mixedcase", l.class})
+		}
+	}
+	// SHORT hexadecimal literals: LLVM accepts fewer digits than the nominal 4/16/20/32. Every
+	// length 1..nominal-1 of each form, over digit strings d, d0..0, 0..0d, dd..d for d in {1,8,F,c}.
+	// (x86_fp80: a short literal is sign/exponent first, so most are non-canonical encodings; they
+	// must still be read without crashing and are compared where LLVM folds them.)
+	{
+		type form struct {
+			kind   int
+			prefix string
+			n      int
+		}
+		forms := []form{{0, "0xH", 4}, {0, "0x", 16}, {1, "0x", 16}, {2, "0x", 16}, {3, "0xK", 20}, {4, "0xL", 32}, {5, "0xM", 32}}
+		for _, f := range forms {
+			seen := map[string]bool{}
+			for ln := 1; ln < f.n; ln++ {
+				for _, d := range []string{"1", "8", "F", "c"} {
+					for _, body := range []string{strings.Repeat(d, ln), d + strings.Repeat("0", ln-1), strings.Repeat("0", ln-1) + d, d + strings.Repeat("0", ln/2) + strings.Repeat(d, ln-1-ln/2)} {
+						if len(body) != ln || seen[body] {
+							continue
+						}
+						seen[body] = true
+						if f.kind == 1 && f.prefix == "0x" {
+							// float: LLVM demands a double that is exactly a float; keep those only.
+							var bits uint64
+							fmt.Sscanf(body, "%x", &bits)
+							if v := math.Float64frombits(bits); float64(float32(v)) != v && v == v {
+								continue
+							}
+						}
+						lits = append(lits, c10lit{f.kind, f.prefix + body, "short-hex", c10classOfHex(f.kind, f.prefix, c10expandShort(f.prefix, body))})
+					}
+				}
+			}
+		}
+	}
 	// a few hand-picked decimal spellings.
 	for _, s := range []string{"0.0", "-0.0", "1.0", "1.5", "0.1", "3.141592653589793", "1e10", "1.0e+10", "2.5e-3", "123456789.0", "1e308", "4.9406564584124654e-324", "1.7976931348623157e+308", "0.30000000000000004"} {
 		lits = append(lits, c10lit{2, s, "decimal", "normal"})
@@ -268,6 +334,63 @@ func c10literals(quick bool) []c10lit {
 		lits = append(lits, c10lit{0, s, "decimal", "normal"}, c10lit{1, s, "decimal", "normal"})
 	}
 	return lits
+}
+
+// c10expandShort gives the full-length digit string LLVM reads a short hexadecimal literal as
+// (validated against llvm-as: every short literal is also sent through LLVM by c10batch).
+func c10expandShort(prefix, body string) string {
+	pad := func(s string, n int) string { return strings.Repeat("0", n-len(s)) + s }
+	switch prefix {
+	case "0xH":
+		return pad(body, 4)
+	case "0x":
+		return pad(body, 16)
+	case "0xK":
+		if len(body) < 4 {
+			return pad(body, 4) + pad("", 16)
+		}
+		return body[:4] + pad(body[4:], 16)
+	default: // 0xL, 0xM
+		if len(body) < 16 {
+			return pad("", 16) + pad(body, 16)
+		}
+		return body[:16] + pad(body[16:], 16)
+	}
+}
+
+// c10classOfHex classifies a full-length hexadecimal literal (class names as in c10classOf; the
+// 16-digit double form and ppc_fp128 are classified as the (first) double; x86_fp80 encodings whose
+// integer bit disagrees with the exponent are "noncanonical" and only checked for crashes).
+func c10classOfHex(kind int, prefix, full string) string {
+	word := func(s string) uint64 {
+		var v uint64
+		fmt.Sscanf(s, "%x", &v)
+		return v
+	}
+	switch prefix {
+	case "0xH":
+		b := word(full)
+		return c10classOf(c10kinds[0], b>>15, b>>10&0x1F, new(big.Int).SetUint64(b&0x3FF))
+	case "0x", "0xM":
+		b := word(full[:16])
+		return c10classOf(c10kinds[2], b>>63, b>>52&0x7FF, new(big.Int).SetUint64(b&(1<<52-1)))
+	case "0xK":
+		se, m := word(full[:4]), word(full[4:])
+		if (se&0x7FFF != 0) != (m>>63 == 1) {
+			return "noncanonical"
+		}
+		return c10classOf(c10kinds[3], se>>15, se&0x7FFF, new(big.Int).SetUint64(m))
+	default: // 0xL: low word first
+		lo, hi := word(full[:16]), word(full[16:])
+		mant := new(big.Int).Lsh(new(big.Int).SetUint64(hi&(1<<48-1)), 64)
+		mant.Or(mant, new(big.Int).SetUint64(lo))
+		return c10classOf(c10kinds[4], hi>>63, hi>>48&0x7FFF, mant)
+	}
+}
+
+// c10baseSpelling drops the digit-case suffix: the case of the digits is not part of a signature.
+func c10baseSpelling(s string) string {
+	return strings.TrimSuffix(strings.TrimSuffix(s, "-lowercase"), "-mixedcase")
 }
 
 func c10decimal(v float64) string {
@@ -374,7 +497,7 @@ func c10batch(c *fw.Check, k c10kind, lits []c10lit, mu *sync.Mutex, skipped *in
 					continue // LLVM does not accept the literal either
 				}
 				printed[i] = ""
-				c.Violation(fmt.Sprintf("parse-or-print-fails/%s/%s/%s", k.name, l.spelling, l.class), c10case{Kind: k.name, Literal: l.text, Spelling: l.spelling, Class: l.class, What: fmt.Sprint(p, err)})
+				c.Violation(fmt.Sprintf("parse-or-print-fails/%s/%s/%s", k.name, c10baseSpelling(l.spelling), l.class), c10case{Kind: k.name, Literal: l.text, Spelling: l.spelling, Class: l.class, What: fmt.Sprint(p, err)})
 			}
 		}
 	} else {
@@ -388,8 +511,8 @@ func c10batch(c *fw.Check, k c10kind, lits []c10lit, mu *sync.Mutex, skipped *in
 	}
 	// library re-parse of its own output is stable.
 	for i, l := range lits {
-		if printed[i] == "" {
-			continue
+		if printed[i] == "" || inBits[i] == "" || strings.HasPrefix(inBits[i], "REJECTED") || strings.HasPrefix(inBits[i], "UNFOLDED") {
+			continue // nothing printed, or not a literal LLVM accepts (e.g. a double that is no half)
 		}
 		var again string
 		p := fw.Try(func() {
@@ -415,6 +538,9 @@ func c10batch(c *fw.Check, k c10kind, lits []c10lit, mu *sync.Mutex, skipped *in
 			mu.Unlock()
 			continue // not a literal LLVM accepts: generator case skipped
 		}
+		if l.class == "noncanonical" {
+			continue // x86_fp80 pseudo-denormal / unnormal encodings: read without crashing, not compared
+		}
 		cs := c10case{Kind: k.name, Literal: l.text, Spelling: l.spelling, Class: l.class, Printed: printed[i], InBits: inBits[i], OutBits: outBits[i]}
 		switch {
 		case strings.HasPrefix(outBits[i], "REJECTED"):
@@ -434,7 +560,7 @@ func runC10(c *fw.Check) {
 		fw.Fatalf("C10 needs llvm-as-14/llvm-dis-14 (bitcast folding gives LLVM's bit pattern of a literal)")
 	}
 	lits := c10literals(c.Quick())
-	c.Rule = "half: ALL 2^16 bit patterns in 0xH form, as 16-digit double hex and (finite ones) as exact decimal; float, double, x86_fp80, fp128: both signs x every exponent (x86_fp80/fp128 quick: all exponents within 40 of zero/bias/max and powers of two; thorough: every exponent) x a mantissa family (0, 1, 2, all-ones, top bit, top two, alternating, top|1, and single-bit walks at boundary exponents / everywhere in thorough), i.e. every zero/subnormal/normal/inf/quiet/signalling/payload class; ppc_fp128: 256 pairs of boundary doubles; decimal spellings of sparse-mantissa values; inexact decimal doubles: every 5-digit significand as dd.ddd and every 8-digit literal 34.000000..34.199999 (thorough: 10.000000..10.999999, 34.000000..34.999999, and 5-digit significands with exponents e-07 and e+25). Oracle: the bit pattern LLVM assigns to the input literal (llvm-as folds `bitcast (T lit to iN)`, read back from llvm-dis) equals the one it assigns to the literal the library prints; LLVM must accept the printed literal; the library must read its own output back to the same literal. distinct = (kind, literal)."
+	c.Rule = "half: ALL 2^16 bit patterns in 0xH form, as 16-digit double hex and (finite ones) as exact decimal; float, double, x86_fp80, fp128: both signs x every exponent (x86_fp80/fp128 quick: all exponents within 40 of zero/bias/max and powers of two; thorough: every exponent) x a mantissa family (0, 1, 2, all-ones, top bit, top two, alternating, top|1, and single-bit walks at boundary exponents / everywhere in thorough), i.e. every zero/subnormal/normal/inf/quiet/signalling/payload class; ppc_fp128: 256 pairs of boundary doubles; decimal spellings of sparse-mantissa values; inexact decimal doubles: every 5-digit significand as dd.ddd and every 8-digit literal 34.000000..34.199999 (thorough: 10.000000..10.999999, 34.000000..34.999999, and 5-digit significands with exponents e-07 and e+25). every hexadecimal literal with a letter digit also in lower case and in alternating case; SHORT hexadecimal literals (every length below the nominal 4/16/20/32 digits of each form, 4 digit patterns x {1,8,F,c}). Oracle: the bit pattern LLVM assigns to the input literal (llvm-as folds `bitcast (T lit to iN)`, read back from llvm-dis) equals the one it assigns to the literal the library prints; LLVM must accept the printed literal; the library must read its own output back to the same literal. distinct = (kind, literal)."
 	const batch = 2000
 	type job struct {
 		k    int
